@@ -485,3 +485,4 @@ LEVEL_TEXT = ('Random calls through the real pretty_call/pretty_call_alt in all 
               'are printed; the printed call must have exactly the callable name, positional and keyword arguments (in order) of the call made, every argument printed as on its own, '
               'and evaluation must perform that call / reconstruct the instance.')
 LEVEL_NOTE = 'Random, not exhaustive, over call shapes and class definitions; exclusions listed in assumptions.'
+ANCHORS = ['prettyprinter.pretty_call', 'prettyprinter.pretty_call_alt', 'prettyprinter.build_fncall', 'prettyprinter.general_identifier', 'dataclasses.pretty_dataclass_instance', 'attrs.pretty_attrs']
